@@ -232,8 +232,8 @@ theorem continueOrRetDyn_reachable {d d' : DState} {s1 : State} {r : Nat} {res e
     · simp at hs; obtain ⟨hd, _⟩ := hs; subst hd; exact hr2
     · exact advanceAny_reachable (d := { d with s := s2 }) hr2 hs
 
-theorem roundFrom_reachable {d : DState} {c : CfgId} {s s' : State} {i : Nat} {ups : List (Key × HostId)}
-    (h : Reachable s) (hs : roundFrom d c s i ups = some s') : Reachable s' := by
+theorem roundFrom_reachable {d : DState} {c : CfgId} {p : Params} {s s' : State} {i : Nat} {ups : List (Key × HostId)}
+    (h : Reachable s) (hs : roundFrom d c p s i ups = some s') : Reachable s' := by
   induction ups generalizing s i with
   | nil => simp [roundFrom] at hs; subst hs; exact h
   | cons u rest ih =>
@@ -316,6 +316,9 @@ theorem sstep_reachable {d d' : DState} {st : SStep} {ev : String} (h : Reachabl
     split at hs
     · simp at hs
     · simp at hs; obtain ⟨hd, _⟩ := hs; subst hd; exact h
+  | probe k pr =>
+    simp only [sstep] at hs
+    simp at hs; obtain ⟨hd, _⟩ := hs; subst hd; exact h
   | round =>
     simp only [sstep] at hs
     split at hs
